@@ -2494,6 +2494,11 @@ func ruleClassifierCoversKinds(c *Ctx, rule string) {
 			}
 		})
 	}
+	// numbers: every numeric kind is answered "integer" or "number"
+	numeric := intKinds | uintKinds | floatKinds
+	gotNum := got["integer"] | got["number"]
+	c.R.Check(numeric.SubsetOf(gotNum), rule, "classifier:number", c.P.Pos(cls.Pos()), fmt.Sprintf("\"integer\" or \"number\" is answered for every kind in %s", numeric),
+		fmt.Sprintf("the type classifier answers \"integer\" or \"number\" only for the kinds %s, not for all of %s: an instance of the missing kind is \"not a JSON value\" for the `type` keyword although the numeric keywords, enum and const still treat it as a number", gotNum&numeric, numeric))
 	want := map[string]KindSet{"array": Kinds(kArray, kSlice), "object": Kinds(kMap, kStruct), "string": Kinds(kString), "boolean": Kinds(kBool)}
 	for _, name := range []string{"array", "boolean", "object", "string"} {
 		w := want[name]
